@@ -119,6 +119,17 @@ def check(tier, seed, replay=None):
                               "extra": ["--set=@inner=(set \"b\" %s %s)" % (const, body)],
                               "selects": ["(push [] (set \"a\" .n @inner) (set \"a\" .m @inner))",
                                           "(push [] %s %s)" % (filled(".n"), filled(".m"))]})
+        # an inner binder whose value is absent for this input, under an outer binding of the same name: whatever a set without a value does, the
+        # outer binding of a name that is bound again inside cannot be seen in there (substituting the outer value leaves the inner set as it is)
+        for inner_v in ('.zz', '(get . "zz")', '.o.zz', '(first [])', '(get .l 99)'):
+            for body in ('(default :n "unset")', ':n', '(concat (default :n "u") "!")', '(? (string? :n) :n "no")', '(map .l (default :n 0))', '(size .l)'):
+                inner = '(set "n" %s %s)' % (inner_v, body)
+                inp = X.typed_input(rnd)
+                plans.append({"kind": "shadow/absent", "input": inp, "selects": ['(set "n" "outer" %s)' % inner, inner], "extra": [], "split": False, "uses": True})
+                plans.append({"kind": "shadow/absent", "input": inp, "selects": ['(map [7] (set "n" . %s))' % inner.replace(".zz", "^.zz").replace("(get . ", "(get ^ ").replace(".o.zz", "^.o.zz").replace(".l", "^.l"),
+                                                                                 '(map [7] %s)' % inner.replace(".zz", "^.zz").replace("(get . ", "(get ^ ").replace(".o.zz", "^.o.zz").replace(".l", "^.l")],
+                              "extra": [], "split": False, "uses": True})
+                plans.append({"kind": "shadow/absent", "input": inp, "selects": ['(define "k" 5 (set "n" "outer" %s))' % inner, inner], "extra": [], "split": False, "uses": True})
         # pipes in which a step hands on the value it was given (or not: data dependent) and a later step looks back with ^
         PIPES = ["(| .l (sort .) ^)", "(| .n (+ . 0) ^)", "(| .s . ^)", "(| .l (filter . true) (size ^))", "(| .o . (keys ^))", "(| .ls (sort .) (first ^) (size ^^))",
                  "(| .l (map . (| . (* . 1) ^^.n)))", "(| .n (abs .) (+ ^ ^^.m))", "(| .l (take . 10) (sum ^) (+ . ^^^.n))", "(| .s (concat . \"\") (size ^))",
